@@ -42,11 +42,13 @@ theorem inv_rotRemove_core {cfg : Cfg} {s : St} {d : Disk} (h : Inv cfg s d) {j 
       (fun _ hx => hx) (fun _ hx => hx)
   · exact h.mm.of_same hcm rfl
   · intro _
-    exact hb.of_same hcm (Nat.le_refl _) (Nat.le_refl _) (fun hr => ⟨hr, Nat.le_refl _⟩)
+    exact hb.of_same hcm (h.seqHi_step hj rfl rfl rfl rfl (fun hb' => nomatch hb')) (Nat.le_refl _)
+      (fun hr => ⟨hr, Nat.le_refl _⟩)
   · intro hr
     have hrun := h.run hr
     apply RunOK.job_step (d' := { d with manifests := ms }) hrun j' s.nextFile s.live s.stJn s.stSq (some m) true
-      (Nat.le_refl _) rfl ⟨hmfd', rfl⟩ hcl (fun hb' => by cases hb')
+      (Nat.le_refl _) rfl ⟨hmfd', rfl⟩ hcl
+      (hrun.hnc_post (j' := j') hok hj hr rfl rfl (fun _ => views_refl (by rw [hlv]; exact hlast) hlast))
     rw [hcm]
     exact holds_of_some hparts.cur (holds_of_some hparts.hv0 (holds_of_some hparts.cur
       (holds_of_some hparts.hv0 (Nat.le_refl _))))
@@ -79,6 +81,12 @@ theorem inv_rotRemove_core {cfg : Cfg} {s : St} {d : Disk} (h : Inv cfg s d) {j 
       exact hok.removals.imp (fun v _ => late_not_rm (j := j')
         ⟨(by intro l x; cases x), (by intro l x; cases x), (by intro l x; cases x)⟩)
     · intro hn; rw [he] at hn; cases hn
+    · exact fun _ => rfl
+    · exact fun _ => rfl
+    · intro _
+      have := hok.committed (by rw [hpc]; rfl)
+      rw [hlv]
+      exact this
 
 
 theorem inv_job_rotRemove {cfg : Cfg} {s : St} {d : Disk} (h : Inv cfg s d) {j : Job}
@@ -99,10 +107,11 @@ theorem inv_job_rotRemove {cfg : Cfg} {s : St} {d : Disk} (h : Inv cfg s d) {j :
   cases hf : s.manifestFd with
   | none =>
     simp only
-    exact inv_rotRemove_core h hj hpc d.manifests (fun _ _ => rfl) h.disk.mnodup
+    exact (inv_rotRemove_core h hj hpc d.manifests (fun _ _ => rfl) h.disk.mnodup).set_manifestFailed false
   | some old =>
     simp only
-    apply inv_rotRemove_core h hj hpc (d.manifests.erase old) _ (pairwise_erase _ h.disk.mnodup)
+    refine (inv_rotRemove_core h hj hpc (d.manifests.erase old) ?_
+      (pairwise_erase _ h.disk.mnodup)).set_manifestFailed false
     intro c hcc
     rw [hc] at hcc; cases hcc
     rw [lookup_erase, if_neg (fun ec => hfdne (by rw [hf, ec]))]
@@ -117,7 +126,10 @@ theorem Inv.rmJournals_lt {cfg : Cfg} {s : St} {d : Disk} (h : Inv cfg s d) {j :
   have hkind := hok.kind
   unfold JobKindOK at hkind
   intro n hn
-  rcases hok.kinds with hk | hk | hk <;> rw [hk] at hkind <;> simp only at hkind
+  rcases hok.kinds with hk | hk | hk | hk | hk <;> rw [hk] at hkind <;> simp only at hkind
+  rotate_right 2
+  · rw [hkind.2.2.1] at hn; cases hn
+  · rw [hkind.2.2.1] at hn; cases hn
   · obtain ⟨hph, hkind⟩ := hkind
     have hrun := h.run hph
     rcases frozenOK_iff.1 hrun.frozen with ⟨h1, _⟩ | ⟨fz, jf, h1, h2, f1, _⟩
